@@ -9,9 +9,10 @@ RULE = ("P1: for every integer data vector of length 1..L over -M..M (quick L=4,
         " through the free functions and the Vector/Matrix methods: mean (both algorithms), var, std, sample var/std, "
         "covariance in all four algorithms, scale laws, min/max/argmin/argmax (constant data, ties at every position, "
         "signed zeros), bin centres for uniform and non-uniform integer and dyadic edges; tolerance 2^-40 (spread^2 + "
-        "spread |offset|): the textbook one-pass formula is off by ~1e-4 at offset 2^20 and is rejected; P3 (incl. six "
-        "vectors of length 513..1400): random integer vectors of length 2..200 validated by TLC (Trace_Stats). Case "
-        "class = (function, data shape n=1/constant/ties/generic, offset class).")
+        "spread |offset|): the textbook one-pass formula is off by ~1e-4 at offset 2^20 and is rejected; every second "
+        "case also at the scales 2^-70 and 2^60 (scale laws of the definitions), population covariance from one "
+        "observation on; P3 (incl. six vectors of length 513..1400): random integer vectors of length 2..200 validated "
+        "by TLC (Trace_Stats). Case class = (function, data shape n=1/constant/ties/generic, offset class).")
 ASSUMPTIONS = ["integer data plus exact offsets (exact rational oracle); lengths beyond a few hundred and gaussian data are not reached",
                "tolerance is that of a numerically stable algorithm, stated in the rule"]
 EXHAUSTIVE = True
